@@ -50,6 +50,7 @@ class Parser:
         self.p = pat
         self.i = 0
         self.verbose = False
+        self.multiline = False
         self.ngroups = 0
         self.names = {}
 
@@ -81,7 +82,10 @@ class Parser:
                 flags = self.p[j:k]
                 if 'x' in flags.split('-')[0]:
                     self.verbose = True
-                for f in flags.replace('x', ''):
+                on = flags.split('-')[0]
+                if 'm' in on:
+                    self.multiline = True
+                for f in flags.replace('x', '').replace('m', ''):
                     if f not in 'u':
                         raise RegexSyntaxError('unsupported flag %r' % f)
                 self.i = k + 1
@@ -168,9 +172,9 @@ class Parser:
         if c == '.':
             return ('class', [(0x0A, 0x0A)], True)
         if c == '^':
-            return ('bol',)
+            return ('bol_m',) if self.multiline else ('bol',)
         if c == '$':
-            return ('eol',)
+            return ('eol_m',) if self.multiline else ('eol',)
         if c == '\\':
             return self.escape(in_class=False)
         return ('lit', ord(c))
@@ -355,6 +359,17 @@ class RegexObj:
                 return k(i, caps) if i == 0 else None
             if t == 'eol':
                 return k(i, caps) if i == n else None
+            if t == 'bol_m':
+                # multi-line mode: start of text or just after a line feed
+                if i == 0:
+                    return k(i, caps)
+                e_ = es[i - 1]
+                return k(i, caps) if m.ctx.branch((e_.v == 0x0A) if not e_.sym else (e_.v == 0x0A)) else None
+            if t == 'eol_m':
+                if i == n:
+                    return k(i, caps)
+                e_ = es[i]
+                return k(i, caps) if m.ctx.branch((e_.v == 0x0A) if not e_.sym else (e_.v == 0x0A)) else None
             raise Unsupported('regex node %r' % (t,))
 
         def done(i, caps):
@@ -513,7 +528,7 @@ def to_z3re(ast, max_cp=0x2FFFF):
             return z3.Intersect(allc, z3.Complement(u))
         return u
     if t == 'cat':
-        items = [to_z3re(x, max_cp) for x in ast[1] if x[0] not in ('bol', 'eol')]
+        items = [to_z3re(x, max_cp) for x in ast[1] if x[0] not in ('bol', 'eol', 'bol_m', 'eol_m')]
         if not items:
             return z3.Re(z3.StringVal(''))
         return items[0] if len(items) == 1 else z3.Concat(*items)
@@ -534,6 +549,33 @@ def to_z3re(ast, max_cp=0x2FFFF):
             return z3.Concat(z3.Loop(r, lo, lo), z3.Star(r))
         return z3.Loop(r, lo, hi)
     raise Unsupported('regex node %r for z3' % (t,))
+
+
+def accepted_language(ast, max_cp=0xFF):
+    """z3 `re` of the strings in which an unanchored search for the pattern succeeds, for patterns that are a top-level
+    concatenation with anchors (if any) only at its two ends: ^..$ -> L;  multi-line ^..$ -> (any* LF)? L (LF any*)?;
+    a missing anchor -> any* on that side."""
+    anyc = z3.Star(z3.Range(z3.StringVal(chr(0)), z3.StringVal(chr(max_cp))))
+    lf = z3.Re(z3.StringVal('\n'))
+    L = to_z3re(ast, max_cp)
+    first = ast[1][0][0] if ast[0] == 'cat' and ast[1] else None
+    last = ast[1][-1][0] if ast[0] == 'cat' and ast[1] else None
+    inner = [x for x in (ast[1] if ast[0] == 'cat' else [ast])][1 if first in ('bol', 'bol_m') else 0:]
+    if any(_has_anchor(x) for x in (inner[:-1] if last in ('eol', 'eol_m') else inner)):
+        raise Unsupported('anchor inside the pattern')
+    pre = z3.Re(z3.StringVal('')) if first == 'bol' else (z3.Option(z3.Concat(anyc, lf)) if first == 'bol_m' else anyc)
+    post = z3.Re(z3.StringVal('')) if last == 'eol' else (z3.Option(z3.Concat(lf, anyc)) if last == 'eol_m' else anyc)
+    return z3.Concat(pre, L, post)
+
+
+def _has_anchor(ast):
+    if ast[0] in ('bol', 'eol', 'bol_m', 'eol_m'):
+        return True
+    if ast[0] in ('cat', 'alt'):
+        return any(_has_anchor(x) for x in ast[1])
+    if ast[0] in ('group', 'rep'):
+        return _has_anchor(ast[1])
+    return False
 
 
 def anchored(ast):
